@@ -267,7 +267,10 @@ def execute(cfg: dict, *, stop_at_first=True, trace=False) -> RunResult:
             return
         prng = seeds.stream(seed, f"probe/{op['id']}")
         n_modes = int(cfg["params"]["n_modes"])
-        qs = models.draw_queries(prng, spec, cfg["fits"][st["m_fit"]], cfg["new"][st["m_fit"]], n_modes, k=k)
+        # (serialise round trips cost ~1 s each in xarray's DataTree: asked by explicit query operations and
+        #  after rotator/bootstrapper fits, not by every probe)
+        qs = models.draw_queries(prng, spec, cfg["fits"][st["m_fit"]], cfg["new"][st["m_fit"]], n_modes, k=k,
+                                 serde=(inv == "H4" and prng.random() < 0.5))
         check_queries("m", qs, op, inv)
         if st["r_valid"] and not res.violations and prng.random() < 0.5:
             rq = models.draw_queries(prng, spec, cfg["fits"][st["m_fit"]], cfg["new"][st["m_fit"]],
@@ -374,6 +377,8 @@ def execute(cfg: dict, *, stop_at_first=True, trace=False) -> RunResult:
                         probe(op, k=3, inv="H4")
                         if not res.violations:
                             check_queries("m", [{"q": "params"}], op, inv="H4")
+                        if not res.violations and spec.family != "multi":
+                            check_queries("m", [{"q": "serde", "sub": {"q": "call", "name": "scores", "kw": {}}}], op, inv="H4")
             elif kind == "boot_fit":
                 if st["m_fit"] is None:
                     counts["undefined_skips"] += 1
